@@ -772,3 +772,46 @@ func (s *Sim) RandBytes(b []byte) {
 		}
 	}
 }
+
+// BubbleGoroutines returns the stacks of the goroutines of the current bubble whose stack
+// mentions substr (leak oracles). It is expensive; call it once at the end of a run.
+func BubbleGoroutines(substr string) []string {
+	buf := make([]byte, 1<<20)
+	for {
+		n := runtime.Stack(buf, true)
+		if n < len(buf) {
+			buf = buf[:n]
+			break
+		}
+		buf = make([]byte, 2*len(buf))
+	}
+	var self string
+	{
+		b := make([]byte, 64)
+		b = b[:runtime.Stack(b, false)]
+		// "goroutine N [running, synctest bubble M]:"
+		if i := strings.Index(string(b), "synctest bubble "); i >= 0 {
+			rest := string(b)[i:]
+			if j := strings.IndexAny(rest, "]\n"); j >= 0 {
+				self = rest[:j]
+			}
+		}
+	}
+	if self == "" {
+		return nil
+	}
+	var out []string
+	for _, g := range strings.Split(string(buf), "\n\n") {
+		head := g
+		if i := strings.Index(g, "\n"); i >= 0 {
+			head = g[:i]
+		}
+		if !strings.Contains(head, self+"]") && !strings.Contains(head, self+",") {
+			continue
+		}
+		if strings.Contains(g, substr) {
+			out = append(out, g)
+		}
+	}
+	return out
+}
